@@ -127,5 +127,493 @@ theorem sqChoose_mem (reqSrv : Option Nat) (s : St) (srv : Server) (s1 : St)
         simp only [List.head?_cons, Option.some.injEq] at h
         rw [← h.1]; exact hs 0 x (by rw [hl]; rfl)
 
+/-! ### `sqOpen` -/
+
+theorem COk.bumpFd {p : CP} (h : COk tr ns cw ex p) : COk tr ns cw ex { p with nextFd := p.nextFd + 1 } :=
+  { h with
+    kindLt := fun e he => by have := h.kindLt e he; show e.1 < p.nextFd + 1; omega
+    tcpOk := fun o ho fd hfd =>
+      ⟨by have := (h.tcpOk o ho fd hfd).1; show fd < p.nextFd + 1; omega, (h.tcpOk o ho fd hfd).2⟩
+    attLt := fun q hq fd hc => by have := h.attLt q hq fd hc; show fd < p.nextFd + 1; omega }
+
+theorem CInv.bumpFd {s s' : St} (h0 : s'.cfg = s.cfg) (h1 : cproj s' = { cproj s with nextFd := s.nextFd + 1 })
+    (h2 : s'.outOfFuel = s.outOfFuel) (h : CInv tr ns cw ex s) : CInv tr ns cw ex s' := by
+  refine CInv.lift h h2 ?_
+  intro hok; rw [h1]; exact COk.bumpFd hok
+
+/-- "the projection of this state is `p`, its fuel flag `o`" — used to follow a state through the plain helpers -/
+def ProjIs (p : CP) (o : Bool) (s : St) : Prop := cproj s = p ∧ s.outOfFuel = o
+
+theorem ProjIs.congr {p : CP} {o : Bool} {s s' : St} (h0 : s'.cfg = s.cfg) (h1 : cproj s' = cproj s)
+    (h2 : s'.outOfFuel = s.outOfFuel) (h : ProjIs p o s) : ProjIs p o s' := by
+  unfold ProjIs at *; rw [h1, h2]; exact h
+
+theorem ProjIs.bump {p : CP} {o : Bool} {s s' : St} (h0 : s'.cfg = s.cfg)
+    (h1 : cproj s' = { cproj s with nextFd := s.nextFd + 1 }) (h2 : s'.outOfFuel = s.outOfFuel)
+    (h : ProjIs p o s) : ProjIs { p with nextFd := p.nextFd + 1 } o s' := by
+  unfold ProjIs at *
+  refine ⟨?_, by rw [h2]; exact h.2⟩
+  rw [h1]
+  have : s.nextFd = p.nextFd := by rw [← h.1]; rfl
+  rw [this, h.1]
+
+section
+variable {p : CP} {o : Bool}
+chan_simple_lemmas ProjIs : (ProjIs p o) => emit slog ofault mfault setSock modSock modClient cacheExpire
+end
+
+macro "projis_chain" : tactic => `(tactic| repeat' (first
+  | assumption
+  | exact ⟨rfl, rfl⟩
+  | (with_reducible apply pair_fst; assumption)
+  | (with_reducible apply pair_snd; assumption)
+  | with_reducible (first
+      | apply ProjIs.emit | apply ProjIs.slog | apply ProjIs.ofault | apply ProjIs.mfault
+      | apply ProjIs.setSock | apply ProjIs.modSock | apply ProjIs.modClient | apply ProjIs.cacheExpire)
+  | with_reducible chan_elim
+  | peel_raw ProjIs.congr
+  | peel_raw ProjIs.bump
+  | unfold_state_let
+  | split))
+
+theorem cproj_addConn (s : St) (c : Conn) :
+    cproj { s with conns := s.conns ++ [c] } = { cproj s with kinds := (cproj s).kinds ++ [(c.fd, c.tcp)] } := by
+  simp [cproj]
+
+theorem cproj_modServer (s : St) (id : Nat) (f : Server → Server) :
+    cproj (s.modServer id f) =
+      { cproj s with tcpConns := (s.servers.map fun x => if x.id == id then f x else x).map (·.tcpConn) } := by
+  unfold cproj St.modServer; simp
+
+/-- a new connection: the state `sA` is `s` with the descriptor counter bumped; `sB` adds the connection `c` with the
+    old counter value as descriptor and sets the servers' `tcpConn` fields to old values, `none`, or (TCP only) `c` -/
+theorem CInv.openConn {s sA sB : St} (h : CInv tr ns cw ex s)
+    (hA : ProjIs { cproj s with nextFd := s.nextFd + 1 } s.outOfFuel sA)
+    (c : Conn) (hc : c.fd = s.nextFd) (t' : List (Option Nat))
+    (hB : cproj sB = { cproj sA with kinds := (cproj sA).kinds ++ [(c.fd, c.tcp)], tcpConns := t' })
+    (ht : ∀ o ∈ t', o ∈ (cproj sA).tcpConns ∨ o = none ∨ (o = some c.fd ∧ c.tcp = true))
+    (hBo : sB.outOfFuel = sA.outOfFuel) : CInv tr ns cw ex sB := by
+  refine CInv.lift h (by rw [hBo, hA.2]) ?_
+  intro hok
+  have := COk.newConn c.tcp t' (p := cproj s) (by
+    intro o ho
+    rcases ht o ho with h1 | h1 | ⟨h1, h2⟩
+    · left; rw [hA.1] at h1; exact h1
+    · exact Or.inr (Or.inl h1)
+    · right; right; rw [hc] at h1; exact ⟨h1, h2⟩) hok
+  rw [hB, hA.1, hc]
+  exact this
+
+theorem fault_nextFd {s s' : St} {c : String} {e : Option Nat} (h : s.fault c = (e, s')) : s'.nextFd = s.nextFd := by
+  have := congrArg (fun r => r.2.nextFd) h
+  exact this.symm
+
+theorem CInv.openConnA {s sA : St} (c : Conn) (h : CInv tr ns cw ex s)
+    (hA : ProjIs { cproj s with nextFd := s.nextFd + 1 } s.outOfFuel sA)
+    (hc' : c.fd = s.nextFd) :
+    CInv tr ns cw ex { sA with conns := sA.conns ++ [c] } := by
+  refine CInv.openConn h hA c hc' (cproj sA).tcpConns ?_ (fun o ho => Or.inl ho) rfl
+  rw [cproj_addConn]
+
+theorem CInv.openConnB {s sA : St} (c : Conn) (id : Nat) (f : Server → Server) (h : CInv tr ns cw ex s)
+    (hA : ProjIs { cproj s with nextFd := s.nextFd + 1 } s.outOfFuel sA)
+    (hc' : c.fd = s.nextFd)
+    (hf : ∀ v, (f v).tcpConn = v.tcpConn ∨ (f v).tcpConn = none ∨ ((f v).tcpConn = some c.fd ∧ c.tcp = true)) :
+    CInv tr ns cw ex (St.modServer { sA with conns := sA.conns ++ [c] } id f) := by
+  refine CInv.openConn h hA c hc'
+    ((sA.servers.map fun x => if x.id == id then f x else x).map (·.tcpConn)) ?_ ?_ rfl
+  · rw [cproj_modServer, cproj_addConn]
+  · intro o ho
+    obtain ⟨x, hx, rfl⟩ := List.mem_map.1 ho
+    obtain ⟨y, hy, rfl⟩ := List.mem_map.1 hx
+    by_cases hyv : y.id == id
+    · simp only [hyv, ↓reduceIte]
+      rcases hf y with e | e | e
+      · left; rw [e]; exact List.mem_map.2 ⟨y, hy, rfl⟩
+      · right; left; exact e
+      · right; right; exact e
+    · simp only [hyv]; left; exact List.mem_map.2 ⟨y, hy, rfl⟩
+
+theorem sqOpen_cg (s : St) (q : Query) (srv : Server) (existing : Option Nat) (h : CInv tr ns cw ex s) :
+    CInv tr ns cw ex (sqOpen s q srv existing).2 := by
+  unfold sqOpen
+  chan_paths
+  all_goals (repeat' (first
+    | assumption
+    | (with_reducible apply pair_fst; assumption)
+    | (with_reducible apply pair_snd; assumption)
+    | c_spec
+    | with_reducible chan_elim
+    | c_congr
+    | (refine CInv.bumpFd (s := ?s0) ?h0 ?h1 ?h2 ?hI
+       case h0 => first | (dsimp only; exact rfl) | dsimp only
+       case h1 => exact rfl
+       case h2 => exact rfl)
+    | unfold_state_let
+    | split))
+  -- the two successful opens (TCP: the server's `tcpConn` is set; UDP)
+  · refine CInv.openConnB (s := s) _ _ _ h ?hA ?hc ?hf
+    case hc => exact fault_nextFd (by assumption)
+    case hA => projis_chain
+    case hf => (intro v; right; right; exact ⟨rfl, by assumption⟩)
+  · refine CInv.openConnA (s := s) _ h ?hA ?hc
+    case hc => exact fault_nextFd (by assumption)
+    case hA => projis_chain
+
+theorem cproj_notify (s : St) (fd : Nat) (r w : Bool) :
+    cproj (s.notify fd r w) = cproj s ∧ (s.notify fd r w).outOfFuel = s.outOfFuel := by
+  unfold St.notify
+  split
+  · exact ⟨rfl, rfl⟩
+  · split
+    · exact ⟨cproj_modConn _ _ _ (fun _ => ⟨rfl, rfl⟩), rfl⟩
+    · exact ⟨cproj_modConn _ _ _ (fun _ => ⟨rfl, rfl⟩), rfl⟩
+
+/-- the kinds after a successful open: the new connection has the old counter value as descriptor -/
+theorem kinds_after_open {s sA : St} (c : Conn) (id : Nat) (f : Server → Server) (fd : Nat) (r w : Bool)
+    (hA : ProjIs { cproj s with nextFd := s.nextFd + 1 } s.outOfFuel sA) (hc : c.fd = s.nextFd) :
+    (cproj ((St.modServer { sA with conns := sA.conns ++ [c] } id f).notify fd r w)).kinds =
+      (cproj s).kinds ++ [(s.nextFd, c.tcp)] := by
+  rw [(cproj_notify _ _ _ _).1, cproj_modServer, cproj_addConn]
+  show (cproj sA).kinds ++ [(c.fd, c.tcp)] = _
+  rw [hA.1, hc]
+
+/-- the connection `sqOpen` returns for a query that uses TCP is a TCP connection (if it exists at all) -/
+theorem sqOpen_kind (s : St) (q : Query) (srv : Server) (hsrv : srv ∈ s.servers) (hok : COk tr ns cw ex (cproj s))
+    (hu : q.usingTcp = true) :
+    ∀ fd, (sqOpen s q srv (sqExisting s q srv)).1 = .ok fd →
+      TcpIfAny (cproj (sqOpen s q srv (sqExisting s q srv)).2).kinds fd := by
+  have hex : sqExisting s q srv = srv.tcpConn := by unfold sqExisting; rw [if_pos hu]
+  rw [hex]
+  cases htc : srv.tcpConn with
+  | some fd0 =>
+    intro fd hfd
+    have : sqOpen s q srv (some fd0) = (.ok fd0, s) := by unfold sqOpen; rfl
+    rw [this] at hfd ⊢
+    simp only [Except.ok.injEq] at hfd
+    subst hfd
+    exact (hok.tcpOk (some fd0) (List.mem_map.2 ⟨srv, hsrv, htc⟩) fd0 rfl).2
+  | none =>
+    unfold sqOpen
+    chan_paths
+    all_goals (intro fd hfd)
+    all_goals first
+      | (cases ‹none = some _›; done)
+      | (simp at hfd; done)
+      | skip
+    all_goals (
+      have hfd' : fd = s.nextFd := by
+        simp only [Except.ok.injEq] at hfd
+        rw [← hfd]; exact fault_nextFd (by assumption)
+      subst hfd'
+      rw [kinds_after_open (s := s) _ _ _ _ _ _ (by projis_chain) (fault_nextFd (by assumption))]
+      intro b hb
+      have hlt : ∀ e ∈ (cproj s).kinds, e.1 < s.nextFd := hok.kindLt
+      rw [COk.kindOfL_append_of_lt hlt, if_pos rfl] at hb
+      rw [← Option.some.inj hb]
+      exact hu)
+
+/-! ### `sqPrep`: the cookie option is (re)computed, the frame is queued, the write is logged -/
+
+/-- facts about the query being sent that the send phase carries from the choice of the connection to the commit:
+    if it uses TCP the chosen connection is a TCP connection; if its cookie resends are used up it carries no cookie -/
+def SendFacts (key fd : Nat) (p : CP) : Prop :=
+  ∀ q ∈ p.qs, q.key = key → (q.usingTcp = true → TcpIfAny p.kinds fd) ∧ (3 ≤ q.cookieTry → q.reqCookie = none)
+
+/-- the invariant of the send phase after the write has been logged -/
+def SQ (tr ns key fd : Nat) (s : St) : Prop :=
+  s.outOfFuel = true ∨ (COk tr ns none none (cproj s) ∧ SendFacts key fd (cproj s))
+
+theorem apply_tcp_no_cookie (c : Cares.Proto.Cookie.CookieSt) (conn : Cares.Proto.Cookie.Conn)
+    (now : Cares.Proto.Cookie.TimeVal) (fresh : List UInt8) (req : Cares.Proto.Cookie.ReqOpt) (h : conn.tcp = true) :
+    (Cares.Proto.Cookie.apply c conn now fresh req).req.join = none := by
+  unfold Cares.Proto.Cookie.apply Cares.Proto.Cookie.applyWith
+  cases req with
+  | none => rfl
+  | some r => simp [h]
+
+theorem map_cookie_tcpConn (l : List Server) (id : Nat) (ck : Cares.Proto.Cookie.CookieSt) :
+    (l.map fun x => if x.id == id then { x with cookie := ck } else x).map (·.tcpConn) = l.map (·.tcpConn) := by
+  rw [List.map_map]
+  apply List.map_congr_left
+  intro x _
+  by_cases h : x.id == id <;> simp [Function.comp, h]
+
+theorem cproj_sqPrep (s : St) (q : Query) (srv : Server) (key fd : Nat) :
+    cproj (sqPrep s q srv key fd) =
+      { cproj s with
+        qs := s.qs.map (fun x => if x.key == key then
+          { x with reqCookie := (sqApply s q srv fd).req.join, cookie := sqCookie (sqApply s q srv fd) } else x),
+        wlog := s.writeLog ++ [key] } ∧
+    (sqPrep s q srv key fd).outOfFuel = s.outOfFuel := by
+  unfold sqPrep
+  dsimp only
+  have hpop : ∀ b : Bool, cproj (if b then s.pop8 else s) = cproj s ∧ (if b then s.pop8 else s).outOfFuel = s.outOfFuel ∧
+      (if b then s.pop8 else s).qs = s.qs ∧ (if b then s.pop8 else s).writeLog = s.writeLog := by
+    intro b
+    cases b
+    · exact ⟨rfl, rfl, rfl, rfl⟩
+    · unfold St.pop8
+      simp only [↓reduceIte]
+      split <;> exact ⟨rfl, rfl, rfl, rfl⟩
+  generalize hb : decide ((sqApply s q srv fd).draws > 0) = b
+  have hif : (if (sqApply s q srv fd).draws > 0 then s.pop8 else s) = (if b then s.pop8 else s) := by
+    subst hb; by_cases hd : (sqApply s q srv fd).draws > 0 <;> simp [hd]
+  rw [hif]
+  obtain ⟨h1, h2, h3, h4⟩ := hpop b
+  generalize (if b then s.pop8 else s) = s1 at h1 h2 h3 h4
+  refine ⟨?_, h2⟩
+  unfold cproj St.modConn St.modQuery St.modServer at *
+  simp only [CP.mk.injEq] at h1
+  obtain ⟨e1, e2, e3, e4, e5, e6, e7, e8, e9, e10, e11⟩ := h1
+  simp only [List.length_map, CP.mk.injEq, map_cookie_tcpConn]
+  refine ⟨e1, e2, by rw [h3], e4, e5, e6, e7, by rw [h4], ?_, e10, e11⟩
+  rw [← e9, List.map_map]
+  apply List.map_congr_left
+  intro c _
+  by_cases hc : c.fd == fd <;> simp [Function.comp, hc]
+
+theorem sqPrep_sq (s : St) (q : Query) (srv : Server) (key fd : Nat)
+    (h : CInv tr ns (some key) none s)
+    (hq : q ∈ s.qs ∧ q.key = key)
+    (hfd' : s.outOfFuel = true ∨ (q.usingTcp = true → TcpIfAny (cproj s).kinds fd)) :
+    SQ tr ns key fd (sqPrep s q srv key fd) := by
+  obtain ⟨hc, ho⟩ := cproj_sqPrep s q srv key fd
+  rcases h with h | hok
+  · exact Or.inl (by rw [ho]; exact h)
+  rcases hfd' with h | hfd0
+  · exact Or.inl (by rw [ho]; exact h)
+  · right
+    have hfd : COk tr ns (some key) none (cproj s) → q.usingTcp = true → TcpIfAny (cproj s).kinds fd :=
+      fun _ => hfd0
+    obtain ⟨hqm, hqk⟩ := hq
+    subst hqk
+    -- the new cookie is absent once the resends are used up (the query then uses TCP, so does the connection)
+    have hnone : 3 ≤ q.cookieTry → (sqApply s q srv fd).req.join = none := by
+      intro h3
+      have hu := hok.ck3tcp q hqm h3
+      have htcp := hfd hok hu
+      unfold sqApply
+      apply apply_tcp_no_cookie
+      show ((s.conn? fd).map (·.tcp)).getD q.usingTcp = true
+      rw [← kindOf_conn?]
+      cases hk : kindOfL (cproj s).kinds fd with
+      | none => exact hu
+      | some b => exact htcp b hk
+    have hmod := COk.modKey q hqm
+      (fun x => { x with reqCookie := (sqApply s q srv fd).req.join, cookie := sqCookie (sqApply s q srv fd) })
+      (some q.key) none ⟨rfl, rfl⟩ (Or.inr rfl) (Or.inr rfl) (Or.inl rfl) (Or.inl rfl) hok
+      (fun c hc => hc) (hok.ck3 q hqm) (hok.ck3tcp q hqm)
+      (fun _ h3 => Or.inl (hnone h3))
+      (fun _ hu fd' hc => hok.attTcp q hqm (by simp) hu fd' hc)
+      (fun fd' hc => hok.attLt q hqm fd' hc)
+    have hmem : ({ q with reqCookie := (sqApply s q srv fd).req.join, cookie := sqCookie (sqApply s q srv fd) } : Query) ∈
+        (cproj s).qs.map (fun x => if x.key == q.key then
+          { x with reqCookie := (sqApply s q srv fd).req.join, cookie := sqCookie (sqApply s q srv fd) } else x) :=
+      List.mem_map.2 ⟨q, hqm, by simp⟩
+    have hw := COk.write ({ q with reqCookie := (sqApply s q srv fd).req.join, cookie := sqCookie (sqApply s q srv fd) } : Query) hmem hmod
+    rw [hc]
+    refine ⟨hw, ?_⟩
+    intro x hx hxk
+    obtain ⟨x0, hx0, rfl⟩ := List.mem_map.1 hx
+    by_cases hk : x0.key == q.key
+    · have : x0 = q := hok.eq_of_key hx0 hqm (by simpa using hk)
+      subst this
+      simp only [hk, ↓reduceIte]
+      exact ⟨fun hu => hfd hok hu, fun h3 => hnone h3⟩
+    · simp only [hk] at hxk
+      exact absurd hxk (by simpa using hk)
+
+theorem SQ.toCInv {key fd : Nat} {s : St} (h : SQ tr ns key fd s) : CInv tr ns none none s := by
+  rcases h with h | h
+  · exact Or.inl h
+  · exact Or.inr h.1
+
+theorem SQ.ofFlush {key fd : Nat} {s r : St} (h : SQ tr ns key fd s) (hf : FlushRel s r) : SQ tr ns key fd r := by
+  rcases h with h | ⟨hok, hfa⟩
+  · exact Or.inl (hf.1 h)
+  · rcases hf.2 with hr | ⟨g, hg, e⟩
+    · exact Or.inl hr
+    · right
+      rw [e]
+      refine ⟨COk.mapQs (coreEq_nameOnly hg) hok, ?_⟩
+      intro x hx hxk
+      obtain ⟨x0, hx0, rfl⟩ := List.mem_map.1 hx
+      obtain ⟨nm, en⟩ := hg x0
+      rw [en] at hxk ⊢
+      exact hfa x0 hx0 hxk
+
+theorem sqWrite_sq {go : Call → St → St × Ret} (hgo : GoC tr ns go) (key fd : Nat) (s : St)
+    (h : SQ tr ns key fd s) : SQ tr ns key fd (sqWrite go s fd).2 := by
+  unfold sqWrite
+  dsimp only
+  split
+  · exact h
+  · split
+    · rcases h with h | h
+      · exact Or.inl h
+      · exact Or.inr h
+    · exact SQ.ofFlush h (hgo.flush fd s s (FlushRel.refl s))
+
+theorem cproj_sqCommit (s : St) (q : Query) (key fd : Nat) (dl : Deadline) :
+    cproj (sqCommit s q key fd dl) =
+      { cproj s with qs := s.qs.map (fun x => if x.key == key then
+          { x with ts := s.now, deadline := dl, conn := some fd, inConnList := true } else x) } ∧
+    (sqCommit s q key fd dl).outOfFuel = s.outOfFuel := by
+  unfold sqCommit
+  dsimp only
+  cases q.conn with
+  | none =>
+    refine ⟨?_, rfl⟩
+    dsimp only
+    rw [cproj_modConn]
+    · rfl
+    · intro _; exact ⟨rfl, rfl⟩
+  | some old =>
+    refine ⟨?_, rfl⟩
+    dsimp only
+    rw [cproj_modConn]
+    · unfold cproj St.modQuery St.modConn
+      simp only [List.map_map, CP.mk.injEq, true_and, and_true]
+      apply List.map_congr_left
+      intro c _
+      dsimp only [Function.comp]
+      split <;> rfl
+    · intro _; exact ⟨rfl, rfl⟩
+
+/-- the commit: the query gets attached to `fd` -/
+theorem sqCommit_c {key fd : Nat} (s : St) (q : Query) (dl : Deadline)
+    (h : SQ tr ns key fd s) (hq : s.query? key = some q) (hconn : ∃ c, s.conn? fd = some c) :
+    CInv tr ns none none (sqCommit s q key fd dl) := by
+  obtain ⟨hc, ho⟩ := cproj_sqCommit s q key fd dl
+  rcases h with h | ⟨hok, hfa⟩
+  · exact Or.inl (by rw [ho]; exact h)
+  · right
+    have hqm : q ∈ s.qs := query?_mem hq
+    have hqk : q.key = key := query?_key hq
+    subst hqk
+    obtain ⟨c, hcn⟩ := hconn
+    obtain ⟨hkm, hkf⟩ := kinds_mem_of_conn? hcn
+    have hfdlt : fd < s.nextFd := by
+      have := hok.kindLt _ hkm
+      rw [hkf] at this; exact this
+    have hf := hfa q hqm rfl
+    rw [hc]
+    exact COk.modKey q hqm
+      (fun x => { x with ts := s.now, deadline := dl, conn := some fd, inConnList := true })
+      none none ⟨rfl, rfl⟩ (Or.inl rfl) (Or.inl rfl) (Or.inl rfl) (Or.inl rfl) hok
+      (fun c hc => hc) (hok.ck3 q hqm) (hok.ck3tcp q hqm)
+      (fun _ h3 => Or.inl (hf.2 h3))
+      (fun _ hu fd' hc' => by
+        have : fd' = fd := (Option.some.inj hc').symm
+        subst this; exact hf.1 hu)
+      (fun fd' hc' => by
+        have : fd' = fd := (Option.some.inj hc').symm
+        subst this; exact hfdlt)
+
+theorem sqDeadline_cframe (s : St) (a : Server) (t : Nat) :
+    (cproj (sqDeadline s a t).2 = cproj s ∨ cproj (sqDeadline s a t).2 = { cproj s with rnd2 := s.obs.rnd2.tail }) ∧
+    (sqDeadline s a t).2.outOfFuel = s.outOfFuel ∧ (sqDeadline s a t).2.qs = s.qs ∧
+    (sqDeadline s a t).2.conns = s.conns := by
+  unfold sqDeadline
+  dsimp only
+  split
+  · refine ⟨Or.inr (cproj_draw2 s).1, (cproj_draw2 s).2, ?_, ?_⟩
+    · unfold St.draw2; split <;> rfl
+    · unfold St.draw2; split <;> rfl
+  · exact ⟨Or.inl rfl, rfl, rfl, rfl⟩
+
+theorem sqDeadline_sq {key fd : Nat} (s : St) (a : Server) (t : Nat) (h : SQ tr ns key fd s) :
+    SQ tr ns key fd (sqDeadline s a t).2 := by
+  obtain ⟨hc, ho, _, _⟩ := sqDeadline_cframe s a t
+  rcases h with h | ⟨hok, hfa⟩
+  · exact Or.inl (by rw [ho]; exact h)
+  · right
+    rcases hc with e | e
+    · rw [e]; exact ⟨hok, hfa⟩
+    · rw [e]; exact ⟨COk.shrinkRnd (List.tail_sublist _) hok, hfa⟩
+
+theorem commit_after_deadline {key fd : Nat} (s : St) (a : Server) (q : Query) (c : Conn)
+    (h : SQ tr ns key fd s) (hq : s.query? key = some q) (hc : s.conn? fd = some c) :
+    CInv tr ns none none
+      (sqCommit (sqDeadline s a q.tryCount).2 q key fd (sqDeadline s a q.tryCount).1) := by
+  obtain ⟨_, _, hqs, hcs⟩ := sqDeadline_cframe s a q.tryCount
+  apply sqCommit_c _ _ _ (sqDeadline_sq s a q.tryCount h)
+  · unfold St.query?; rw [hqs]; exact hq
+  · exact ⟨c, by unfold St.conn?; rw [hcs]; exact hc⟩
+
+theorem commit_after_deadline' {key fd : Nat} {s s1 : St} {a : Server} {q : Query} {c : Conn} {dl : Deadline}
+    (h : SQ tr ns key fd s) (hq : s.query? key = some q) (hc : s.conn? fd = some c)
+    (hdl : sqDeadline s a q.tryCount = (dl, s1)) :
+    CInv tr ns none none (sqCommit s1 q key fd dl) := by
+  have := commit_after_deadline (tr := tr) (ns := ns) s a q c h hq hc
+  rw [hdl] at this; exact this
+
+theorem sqAfter_c {go : Call → St → St × Ret} (hgo : GoC tr ns go) (q : Query) (srv : Server) (key fd : Nat)
+    (pd : Bool) (wst : Status) (s : St) (h : SQ tr ns key fd s) :
+    CInv tr ns none none (sqAfter go q srv key fd pd wst s).1 := by
+  have hC : CInv tr ns none none s := h.toCInv
+  unfold sqAfter
+  chan_paths
+  all_goals first
+    | ((repeat' (c_step hgo)); done)
+    | skip
+  -- the two commits (with and without the probe)
+  · apply pair_fst ‹go _ _ = _›
+    apply hgo.inv
+    show CInv _ _ _ _ _
+    exact commit_after_deadline' h ‹_› ‹_› ‹_›
+  · exact commit_after_deadline' h ‹_› ‹_› ‹_›
+
+/-! ### the queries are not touched by the connection set-up -/
+
+def QsIs (l : List Query) (s : St) : Prop := s.qs = l
+
+theorem QsIs.congr {l : List Query} {s s' : St} (h0 : s'.cfg = s.cfg) (h1 : s'.qs = s.qs) (h : QsIs l s) :
+    QsIs l s' := by
+  unfold QsIs at *; rw [h1]; exact h
+
+section
+variable {l : List Query}
+chan_simple_lemmas QsIs : (QsIs l) =>
+  emit slog ofault mfault setConn setServer setSock modConn modServer modSock modClient cacheExpire
+end
+
+theorem sqOpen_qs (s : St) (q : Query) (srv : Server) (existing : Option Nat) :
+    (sqOpen s q srv existing).2.qs = s.qs := by
+  have h : QsIs s.qs s := rfl
+  show QsIs s.qs (sqOpen s q srv existing).2
+  unfold sqOpen
+  chan_paths
+  all_goals (repeat' (first
+    | assumption
+    | (with_reducible apply pair_fst; assumption)
+    | (with_reducible apply pair_snd; assumption)
+    | with_reducible (first
+        | apply QsIs.emit | apply QsIs.slog | apply QsIs.ofault | apply QsIs.mfault | apply QsIs.setConn
+        | apply QsIs.setServer | apply QsIs.setSock | apply QsIs.modConn | apply QsIs.modServer
+        | apply QsIs.modSock | apply QsIs.modClient | apply QsIs.cacheExpire)
+    | with_reducible chan_elim
+    | peel_raw QsIs.congr
+    | unfold_state_let
+    | split))
+
+theorem sendQueryBlocks_c {go : Call → St → St × Ret} (hgo : GoC tr ns go) (reqSrv : Option Nat) (key : Nat)
+    (s : St) (h : CInv tr ns (some key) none s) :
+    CInv tr ns none none (sendQueryBlocks go reqSrv key s).1 := by
+  unfold sendQueryBlocks
+  split
+  · exact CInv.mfault h.dropW
+  · rename_i q hq
+    have hqm : q ∈ s.qs ∧ q.key = key := ⟨query?_mem hq, query?_key hq⟩
+    extract_lets sorted
+    split
+    rename_i srv? s1 hch
+    obtain ⟨hc1, ho1, hs1⟩ : cproj s1 = cproj s ∧ s1.outOfFuel = s.outOfFuel ∧ s1.servers = s.servers := by
+      have := cproj_sqChoose reqSrv s; rw [hch] at this; exact this
+    have h1 : CInv tr ns (some key) none s1 := CInv.congr (s := s) (by
+      have := congrArg CP.tries hc1; sorry) hc1 ho1 h
+    sorry
+
 end
 end Cares.Chan
